@@ -160,7 +160,7 @@ def run(ctx, verdict, replay=None, model_ok=True):
                 job = dict(job, pkg="k%03d" % len(replay_jobs))
                 job["schema_text"] = re.sub(r"(?m)^package \w+", "package " + job["pkg"], job["schema_text"])
                 replay_jobs.append((camp.add_schema_text(job["pkg"], job["fmt"], job["schema_text"]), job))
-        per_fmt = 150 if thorough else 13
+        per_fmt = 260 if thorough else 18
         k = 0
         for fmt in srcgen.FORMATS:
             for _ in range(per_fmt):
@@ -245,6 +245,8 @@ def run(ctx, verdict, replay=None, model_ok=True):
             cause = "integer-written-with-fraction"
         elif shapes:
             cause = "+".join(shapes)
+        elif "stress" in (j["meta"].get("faults") or []):
+            cause = "stress-document"
         else:
             cause = "other"
         report({"part": "strict", "kind": "rejects-document-meeting-the-four-conditions", "cause": cause}, i,
